@@ -176,6 +176,7 @@ package hashgraph
 //@ func (h *Hashgraph) _ancestor(x, y string) (bool, error)
 //@   requires h != nil
 //@   modifies G_miss(h.Store)
+//@   ensures[miss]  old(G_miss(h.Store)) ==> G_miss(h.Store)
 //@   ensures[refl] x == y ==> ret0 && ret1 == nil
 //@   ensures[rule] ret1 == nil && x != y ==> __in(x, G_events(h.Store)) && __in(y, G_events(h.Store)) && ret0 == AncRule(G_events(h.Store)[x], G_events(h.Store)[y])
 //@   ensures[err]  ret1 != nil ==> !ret0
@@ -183,6 +184,7 @@ package hashgraph
 //@ func (h *Hashgraph) _selfAncestor(x, y string) (bool, error)
 //@   requires h != nil
 //@   modifies G_miss(h.Store)
+//@   ensures[miss]  old(G_miss(h.Store)) ==> G_miss(h.Store)
 //@   ensures[refl] x == y ==> ret0 && ret1 == nil
 //@   ensures[rule] ret1 == nil && x != y ==> __in(x, G_events(h.Store)) && __in(y, G_events(h.Store)) && ret0 == SelfAncRule(G_events(h.Store)[x], G_events(h.Store)[y])
 //@   ensures[err]  ret1 != nil ==> !ret0
@@ -194,16 +196,20 @@ package hashgraph
 //@ ghost func (h *Hashgraph) selfAncCacheOK() bool { return h.selfAncestorCache != nil && (forall x string, y string :: __in(interface{}(key{x, y}), common.G_m(h.selfAncestorCache)) ==> common.G_m(h.selfAncestorCache)[interface{}(key{x, y})] == interface{}(SelfAncV(h, x, y))) }
 
 //@ func (h *Hashgraph) ancestor(x, y string) (bool, error)
+//@   safety on
 //@   requires h != nil && h.ancCacheOK()
 //@   assume[def] (x == y ==> AncV(h, x, y)) && (x != y && __in(x, G_events(h.Store)) && __in(y, G_events(h.Store)) ==> AncV(h, x, y) == AncRule(G_events(h.Store)[x], G_events(h.Store)[y]))
 //@   modifies common.G_m(h.ancestorCache), G_miss(h.Store)
+//@   ensures[miss]  old(G_miss(h.Store)) ==> G_miss(h.Store)
 //@   ensures[value] ret1 == nil ==> ret0 == AncV(h, x, y)
 //@   ensures[memo]  h.ancCacheOK()
 
 //@ func (h *Hashgraph) selfAncestor(x, y string) (bool, error)
+//@   safety on
 //@   requires h != nil && h.selfAncCacheOK()
 //@   assume[def] (x == y ==> SelfAncV(h, x, y)) && (x != y && __in(x, G_events(h.Store)) && __in(y, G_events(h.Store)) ==> SelfAncV(h, x, y) == SelfAncRule(G_events(h.Store)[x], G_events(h.Store)[y]))
 //@   modifies common.G_m(h.selfAncestorCache), G_miss(h.Store)
+//@   ensures[miss]  old(G_miss(h.Store)) ==> G_miss(h.Store)
 //@   ensures[value] ret1 == nil ==> ret0 == SelfAncV(h, x, y)
 //@   ensures[memo]  h.selfAncCacheOK()
 
@@ -215,6 +221,7 @@ package hashgraph
 //@ func (h *Hashgraph) _stronglySee(x, y string, peers *peers.PeerSet) (bool, error)
 //@   requires h != nil && peers != nil && peers.WF()
 //@   modifies G_miss(h.Store)
+//@   ensures[miss]  old(G_miss(h.Store)) ==> G_miss(h.Store)
 //@   ensures[rule] ret1 == nil ==> __in(x, G_events(h.Store)) && __in(y, G_events(h.Store)) && ret0 == SSRule(G_events(h.Store)[x], G_events(h.Store)[y], peers)
 //@   ensures[err]  ret1 != nil ==> !ret0
 //@   loop 1 invariant[cnt] c == __count(__visset(), func(p string) bool { return SSCond(G_events(h.Store)[x], G_events(h.Store)[y], p) })
@@ -224,9 +231,11 @@ package hashgraph
 //@ ghost func (h *Hashgraph) ssCacheOK() bool { return h.stronglySeeCache != nil && (forall x string, y string, z string :: __in(interface{}(treKey{x, y, z}), common.G_m(h.stronglySeeCache)) ==> common.G_m(h.stronglySeeCache)[interface{}(treKey{x, y, z})] == interface{}(SSV(h, x, y, z))) }
 
 //@ func (h *Hashgraph) stronglySee(x, y string, peers *peers.PeerSet) (bool, error)
+//@   safety on
 //@   requires h != nil && peers != nil && peers.WF() && h.ssCacheOK()
 //@   assume[def] __in(x, G_events(h.Store)) && __in(y, G_events(h.Store)) ==> SSV(h, x, y, PSHexOf(peers)) == SSRule(G_events(h.Store)[x], G_events(h.Store)[y], peers)
 //@   modifies common.G_m(h.stronglySeeCache), G_miss(h.Store)
+//@   ensures[miss]  old(G_miss(h.Store)) ==> G_miss(h.Store)
 //@   ensures[value] ret1 == nil ==> ret0 == SSV(h, x, y, PSHexOf(peers))
 //@   ensures[memo]  h.ssCacheOK()
 
@@ -242,18 +251,21 @@ package hashgraph
 //@ func (h *Hashgraph) _round(x string) (int, error)
 //@   requires h != nil && h.memoSep() && h.roundCacheOK() && h.ssCacheOK()
 //@   modifies common.G_m(h.roundCache), common.G_m(h.stronglySeeCache), G_miss(h.Store)
+//@   ensures[miss]  old(G_miss(h.Store)) ==> G_miss(h.Store)
 //@   ensures[rule] ret1 == nil ==> __in(x, G_events(h.Store)) && ret0 == RoundRule(h, x, G_events(h.Store)[x])
 //@   ensures[memo] h.roundCacheOK() && h.ssCacheOK()
 //@   loop 1 modifies common.G_m(h.stronglySeeCache), G_miss(h.Store)
-//@   loop 1 invariant[memo] h.roundCacheOK() && h.ssCacheOK()
+//@   loop 1 invariant[memo] h.roundCacheOK() && h.ssCacheOK() && (old(G_miss(h.Store)) ==> G_miss(h.Store))
 //@   loop 1 invariant[enum] __enum(__ranged([]string(nil)), parentRoundObj.CreatedEvents, func(w string) bool { return parentRoundObj.CreatedEvents[w].Witness })
 //@   loop 1 invariant[cnt]  c == __countseq(__ranged([]string(nil)), __idx(), func(w string) bool { return SSV(h, x, w, PSHexOf(parentRoundPeerSet)) })
 //@   loop 1 invariant[set]  __enumlemma(__ranged([]string(nil)), parentRoundObj.CreatedEvents, func(w string) bool { return parentRoundObj.CreatedEvents[w].Witness }, func(w string) bool { return SSV(h, x, w, PSHexOf(parentRoundPeerSet)) }, func(w string) bool { return parentRoundObj.CreatedEvents[w].Witness && SSV(h, x, w, PSHexOf(parentRoundPeerSet)) })
 
 //@ func (h *Hashgraph) round(x string) (int, error)
+//@   safety on
 //@   requires h != nil && h.memoSep() && h.roundCacheOK() && h.ssCacheOK()
 //@   assume[def] __in(x, G_events(h.Store)) ==> RoundV(h, x) == RoundRule(h, x, G_events(h.Store)[x])
 //@   modifies common.G_m(h.roundCache), common.G_m(h.stronglySeeCache), G_miss(h.Store)
+//@   ensures[miss]  old(G_miss(h.Store)) ==> G_miss(h.Store)
 //@   ensures[value] ret1 == nil ==> ret0 == RoundV(h, x)
 //@   ensures[memo]  h.roundCacheOK() && h.ssCacheOK()
 
@@ -264,13 +276,16 @@ package hashgraph
 //@ func (h *Hashgraph) _witness(x string) (bool, error)
 //@   requires h != nil && h.memoSep() && h.roundCacheOK() && h.ssCacheOK()
 //@   modifies common.G_m(h.roundCache), common.G_m(h.stronglySeeCache), G_miss(h.Store)
+//@   ensures[miss]  old(G_miss(h.Store)) ==> G_miss(h.Store)
 //@   ensures[rule] ret1 == nil ==> __in(x, G_events(h.Store)) && ret0 == WitRule(h, x, G_events(h.Store)[x])
 //@   ensures[memo] h.roundCacheOK() && h.ssCacheOK()
 
 //@ func (h *Hashgraph) witness(x string) (bool, error)
+//@   safety on
 //@   requires h != nil && h.memoSep() && h.roundCacheOK() && h.ssCacheOK() && h.witCacheOK()
 //@   assume[def] __in(x, G_events(h.Store)) ==> WitV(h, x) == WitRule(h, x, G_events(h.Store)[x])
 //@   modifies common.G_m(h.witnessCache), common.G_m(h.roundCache), common.G_m(h.stronglySeeCache), G_miss(h.Store)
+//@   ensures[miss]  old(G_miss(h.Store)) ==> G_miss(h.Store)
 //@   ensures[value] ret1 == nil ==> ret0 == WitV(h, x)
 //@   ensures[memo]  h.roundCacheOK() && h.ssCacheOK() && h.witCacheOK()
 
@@ -281,7 +296,10 @@ package hashgraph
 //@ ghost func SPLT(h *Hashgraph, e *Event) int { return __ite(e.Body.Parents[0] == "", -1, LTV(h, e.Body.Parents[0])) }
 //@ ghost func OPLT(h *Hashgraph, e *Event) int { return __ite(__in(e.Body.Parents[1], G_events(h.Store)), LTV(h, e.Body.Parents[1]), -2147483648) }
 //@ ghost func LTRule(h *Hashgraph, e *Event) int { return 1 + __ite(e.Body.Parents[1] != "" && OPLT(h, e) > SPLT(h, e), OPLT(h, e), SPLT(h, e)) }
-//@ ghost func (h *Hashgraph) ltCacheOK() bool { return h.timestampCache != nil && (G_miss(h.Store) || (forall x string :: __in(interface{}(x), common.G_m(h.timestampCache)) ==> common.G_m(h.timestampCache)[interface{}(x)] == interface{}(LTV(h, x)))) }
+//@ ghost func (h *Hashgraph) ltCacheOK() bool { return h.timestampCache != nil && (forall x string :: __in(interface{}(x), common.G_m(h.timestampCache)) ==> __dyn(common.G_m(h.timestampCache)[interface{}(x)], "int")) && (G_miss(h.Store) || (forall x string :: __in(interface{}(x), common.G_m(h.timestampCache)) ==> common.G_m(h.timestampCache)[interface{}(x)] == interface{}(LTV(h, x)))) }
+
+// MemoOK: the six memo caches are separate objects and each is pure memoisation of its value function.
+//@ ghost func (h *Hashgraph) MemoOK() bool { return h.memoSep() && h.ancCacheOK() && h.selfAncCacheOK() && h.ssCacheOK() && h.roundCacheOK() && h.witCacheOK() && h.ltCacheOK() }
 
 //@ func (h *Hashgraph) _lamportTimestamp(x string) (int, error)
 //@   requires h != nil && h.ltCacheOK()
@@ -293,6 +311,7 @@ package hashgraph
 //@   ensures[miss]   old(G_miss(h.Store)) ==> G_miss(h.Store)
 
 //@ func (h *Hashgraph) lamportTimestamp(x string) (int, error)
+//@   safety on
 //@   requires h != nil && h.ltCacheOK()
 //@   assume[def] __in(x, G_events(h.Store)) ==> LTV(h, x) == LTRule(h, G_events(h.Store)[x])
 //@   modifies common.G_m(h.timestampCache), G_miss(h.Store)
@@ -301,14 +320,17 @@ package hashgraph
 //@   ensures[miss]  old(G_miss(h.Store)) ==> G_miss(h.Store)
 
 //@ func (h *Hashgraph) updateAncestorFirstDescendant(event *Event) error
-//@   requires h != nil && event != nil && event.lastAncestors != nil
-//@   modifies G_events(h.Store), G_fault(h.Store), G_miss(h.Store), anymap CoordinatesMap, anyghost common.m
+//@   requires h != nil && event != nil && event.lastAncestors != nil && h.MemoOK()
+//@   modifies G_events(h.Store), G_fault(h.Store), G_miss(h.Store), anymap CoordinatesMap, common.G_m(h.witnessCache), common.G_m(h.roundCache), common.G_m(h.stronglySeeCache)
 //@   ensures[view]  __eq(G_events(h.Store), old(G_events(h.Store))) && __eq(G_last(h.Store), old(G_last(h.Store))) && __eq(G_lastIdx(h.Store), old(G_lastIdx(h.Store)))
 //@   ensures[fault] ret0 != nil ==> G_fault(h.Store)
-//@   loop 1 modifies G_events(h.Store), G_fault(h.Store), G_miss(h.Store), anymap CoordinatesMap, anyghost common.m
-//@   loop 2 modifies G_events(h.Store), G_fault(h.Store), G_miss(h.Store), anymap CoordinatesMap, anyghost common.m
+//@   ensures[memo]  h.MemoOK()
+//@   loop 1 modifies G_events(h.Store), G_fault(h.Store), G_miss(h.Store), anymap CoordinatesMap, common.G_m(h.witnessCache), common.G_m(h.roundCache), common.G_m(h.stronglySeeCache)
+//@   loop 2 modifies G_events(h.Store), G_fault(h.Store), G_miss(h.Store), anymap CoordinatesMap, common.G_m(h.witnessCache), common.G_m(h.roundCache), common.G_m(h.stronglySeeCache)
 //@   loop 1 invariant[view] __eq(G_events(h.Store), old(G_events(h.Store))) && __eq(G_last(h.Store), old(G_last(h.Store))) && __eq(G_lastIdx(h.Store), old(G_lastIdx(h.Store))) && (old(G_fault(h.Store)) ==> G_fault(h.Store))
 //@   loop 2 invariant[view] __eq(G_events(h.Store), old(G_events(h.Store))) && __eq(G_last(h.Store), old(G_last(h.Store))) && __eq(G_lastIdx(h.Store), old(G_lastIdx(h.Store))) && (old(G_fault(h.Store)) ==> G_fault(h.Store))
+//@   loop 1 invariant[memo] h.MemoOK()
+//@   loop 2 invariant[memo] h.MemoOK()
 
 //@ func (h *Hashgraph) InsertEvent(event *Event, setWireInfo bool) error
 //@   requires h != nil && event != nil && len(event.Body.Parents) == 2 && h.PendingSignatures != nil && h.PendingSignatures.items != nil
